@@ -182,6 +182,19 @@ pub struct Entry {
     pub filetype: EntryType,
 }
 
+/*
+ * Append an "<action> (<filename>) = <value>" line.  The file name is written
+ * as the bytes it consists of, it is not required to be valid UTF-8.
+ */
+fn push_line(bytes: &mut Vec<u8>, action: &str, filename: &Path, value: &str) {
+    bytes.extend_from_slice(action.as_bytes());
+    bytes.extend_from_slice(b" (");
+    bytes.extend_from_slice(filename.as_os_str().as_bytes());
+    bytes.extend_from_slice(b") = ");
+    bytes.extend_from_slice(value.as_bytes());
+    bytes.push(b'\n');
+}
+
 impl Entry {
     /**
      * Create a new [`Entry`].
@@ -308,24 +321,19 @@ impl Entry {
     pub fn as_bytes(&self) -> Vec<u8> {
         let mut bytes = Vec::new();
         for c in &self.checksums {
-            bytes.extend_from_slice(
-                format!(
-                    "{} ({}) = {}\n",
-                    c.digest,
-                    self.filename.display(),
-                    c.hash
-                )
-                .as_bytes(),
+            push_line(
+                &mut bytes,
+                &c.digest.to_string(),
+                &self.filename,
+                &c.hash,
             );
         }
         if let Some(size) = self.size {
-            bytes.extend_from_slice(
-                format!(
-                    "Size ({}) = {} bytes\n",
-                    self.filename.display(),
-                    size
-                )
-                .as_bytes(),
+            push_line(
+                &mut bytes,
+                "Size",
+                &self.filename,
+                &format!("{} bytes", size),
             );
         }
         bytes
@@ -683,38 +691,30 @@ impl Distinfo {
 
         for q in self.distfiles.values() {
             for c in &q.checksums {
-                bytes.extend_from_slice(
-                    format!(
-                        "{} ({}) = {}\n",
-                        c.digest,
-                        q.filename.display(),
-                        c.hash
-                    )
-                    .as_bytes(),
+                push_line(
+                    &mut bytes,
+                    &c.digest.to_string(),
+                    &q.filename,
+                    &c.hash,
                 );
             }
             if let Some(size) = q.size {
-                bytes.extend_from_slice(
-                    format!(
-                        "Size ({}) = {} bytes\n",
-                        q.filename.display(),
-                        size
-                    )
-                    .as_bytes(),
+                push_line(
+                    &mut bytes,
+                    "Size",
+                    &q.filename,
+                    &format!("{} bytes", size),
                 );
             }
         }
 
         for q in self.patchfiles.values() {
             for c in &q.checksums {
-                bytes.extend_from_slice(
-                    format!(
-                        "{} ({}) = {}\n",
-                        c.digest,
-                        q.filename.display(),
-                        c.hash
-                    )
-                    .as_bytes(),
+                push_line(
+                    &mut bytes,
+                    &c.digest.to_string(),
+                    &q.filename,
+                    &c.hash,
                 );
             }
         }
